@@ -64,6 +64,18 @@ func (n *RaftNode) VApply(index uint64, digests []hashing.Digest) (snaps []*ball
 	return resp.val.([]*balloon.Snapshot), false
 }
 
+// VApplyErr is VApply with the state machine's error kept apart from "already applied".
+func (n *RaftNode) VApplyErr(index uint64, digests []hashing.Digest) (snaps []*balloon.Snapshot, err error) {
+	cmd := newCommand(addEventCommandType)
+	cmd.encode(digests)
+	r := n.Apply(&raft.Log{Index: index, Term: 1, Type: raft.LogCommand, Data: cmd.data})
+	resp := r.(*fsmResponse)
+	if resp.err != nil {
+		return nil, resp.err
+	}
+	return resp.val.([]*balloon.Snapshot), nil
+}
+
 // VCommandRoundTrip encodes and decodes an add command.
 func VCommandRoundTrip(digests []hashing.Digest) ([]hashing.Digest, error) {
 	cmd := newCommand(addEventCommandType)
